@@ -1,8 +1,8 @@
-SPECIFICATION Spec
+SPECIFICATION TSpec
 CONSTANTS
-  MaxPg = 3
-  MaxTx = 3
-  MaxL1 = 2
+  MaxPg = 64
+  MaxTx = 999
+  MaxL1 = 999
   FixV1 = FALSE
   FixV2 = FALSE
   FixV3 = FALSE
@@ -10,6 +10,5 @@ CONSTANTS
   WithLock = TRUE
   WithRet = TRUE
   WithSnap = TRUE
-  WithTT = FALSE
-
-CHECK_DEADLOCK FALSE
+  WithTT = TRUE
+CHECK_DEADLOCK TRUE
